@@ -163,3 +163,46 @@ func VerifH_C10_polling_two_bodies() {
 		verif.Assert(sameBytes(got, b2[1:]), "the second request delivers exactly its own body")
 	}
 }
+
+// VerifH_C02_polling_v3_binary_body: a revision-3 polling session, opened with or without
+// the b64 flag (which only governs what the SERVER sends), receives a data request in the
+// v3 binary framing (Content-Type: application/octet-stream) carrying a text and a binary
+// message: both are delivered once, in order, bytes and kind intact.
+func VerifH_C02_polling_v3_binary_body() {
+	hctx, _ := newCtx("GET", "3")
+	if verif.Bool() {
+		hctx.Query().Set("b64", "1")
+	}
+	p := NewPolling(hctx).(*polling)
+	rec := &evRec{}
+	rec.listen(p, "packet", "error")
+	p.SetMaxHttpBufferSize(1 << 20)
+	t := verif.BytesN(verif.Int(0, 2))
+	for _, b := range t {
+		verif.Assume(b >= 0x20 && b < 0x7f) // printable text (the codec module's handling of control characters is outside the claim)
+	}
+	bin := verif.BytesN(verif.Int(0, 2))
+	// <0=string|1=binary> <length digits> 0xff <packet>
+	body := []byte{0x00, byte(1 + len(t)), 0xff, '4'}
+	body = append(body, t...)
+	body = append(body, 0x01, byte(1+len(bin)), 0xff, 0x04)
+	body = append(body, bin...)
+	ctx, w := newCtx("POST", "3")
+	ctx.Request().Header.Set("Content-Type", "application/octet-stream")
+	ctx.Headers().Set("Content-Type", "application/octet-stream")
+	ctx.Request().ContentLength = int64(len(body))
+	ctx.Request().Body = &fakeBody{data: body}
+	p.OnRequest(ctx)
+	verif.Settle()
+	verif.Assert(len(w.status) == 1 && w.status[0] == 200, "the data request is acknowledged")
+	verif.Assert(rec.count("packet") == 2 && rec.count("error") == 0, "both packets of the binary-framed payload are delivered")
+	if rec.count("packet") == 2 {
+		p0 := rec.args[rec.index("packet", 0)][0].(*packet.Packet)
+		p1 := rec.args[rec.index("packet", 1)][0].(*packet.Packet)
+		verif.Assert(p0.Type == packet.MESSAGE && sameBytes(readAll(p0.Data), t), "the text message first, intact")
+		verif.Assert(p1.Type == packet.MESSAGE && sameBytes(readAll(p1.Data), bin), "then the binary message, intact")
+		_, text0 := p0.Data.(*types.StringBuffer)
+		_, text1 := p1.Data.(*types.StringBuffer)
+		verif.Assert(text0 && !text1, "kinds preserved")
+	}
+}
